@@ -105,6 +105,23 @@ class Item(Watched):
         return ("item", k) if rc.plain_immutable(k) else "ref"
 
 
+class Seq(object):
+    """a small sequence handed out by reference: supports indexing, len, iteration - but no repetition operators, so a hostile
+    `seq * 2**33` cannot make the serving process allocate gigabytes (a denial of service that the property does not cover)"""
+
+    def __init__(self, *xs):
+        self._xs = xs
+
+    def __getitem__(self, i):
+        return self._xs[i]
+
+    def __len__(self):
+        return len(self._xs)
+
+    def __iter__(self):
+        return iter(self._xs)
+
+
 def make_service():
     import rpyc
 
@@ -123,7 +140,7 @@ def make_service():
             return object.__getattribute__(self, "items")[i % 3]
 
         def exposed_pair(self):
-            return (object.__getattribute__(self, "items")[1], [1, 2])
+            return (object.__getattribute__(self, "items")[1], Seq(1, 2))
 
         def exposed_apply(self, fn, x):
             return fn(x)
